@@ -46,6 +46,7 @@ def shards(tier):
     n = hist_len(tier)
     for i, start in enumerate([0, 250, 65530, 2 ** 31 - 3, 2 ** 64 - 2]):
         out.append(("history", i, start, n if i == 0 else min(n, 1500)))
+    out.append(("history-debuglog", 0, 0, 600))
     return out
 
 
@@ -341,7 +342,12 @@ def run_history(st: Stats, idx, start, n):
 
 def run_shard(shard, tier) -> Stats:
     st = Stats()
-    if shard[0] == "history":
+    if shard[0] == "history-debuglog":
+        # the same, with the library's debug logging switched on by the user
+        from ..harness import debug_logging
+        with debug_logging():
+            run_history(st, shard[1], shard[2], shard[3])
+    elif shard[0] == "history":
         run_history(st, shard[1], shard[2], shard[3])
     else:
         run_direct(st, shard[0], shard[1])
